@@ -165,6 +165,27 @@ fn run(ctx: &mut Ctx) {
                 s.truncate(l);
             }
         }
+        if i % 3 == 0 && !wires.is_empty() {
+            // one channel (often the first or last wire of a block) 40..140 samples longer, with a late pulse
+            let blocks = vh::contiguous_ranges(&to_array(&wires));
+            let (f, l) = *rng.pick(&blocks);
+            let target = match rng.below(3) {
+                0 => f,
+                1 => (l + 255) % 256,
+                _ => wires[rng.usize(wires.len())].0,
+            };
+            if let Some((_, s)) = wires.iter_mut().find(|(w, _)| *w == target) {
+                let extra = 40 + rng.usize(100);
+                let k = s.len() + rng.usize(extra - 30);
+                s.extend(vec![0.0; extra]);
+                let a = 10f64.powf(rng.range(1.5, 3.0));
+                for (j, r) in m.wr.iter().enumerate() {
+                    if k + j < s.len() {
+                        s[k + j] = (s[k + j] + a * r).round();
+                    }
+                }
+            }
+        }
         if i == 1 {
             ctx.sample(json!({"kind": "wire occupancy pattern", "occupied_wires": nocc, "mode": mode, "hits": nh, "len": len, "rotations": 31}));
         }
